@@ -35,9 +35,24 @@ class Stream:
         self.project = project or (lambda r: r)
 
 
+class CheckError(SystemExit):
+    """an infrastructure failure (no verdict): exit status 2 unless caught (the shrinker catches it: a candidate the
+    machinery cannot evaluate is simply not taken)"""
+    def __init__(self, msg, code=2):
+        SystemExit.__init__(self, code)
+        self.msg = msg
+
+
+_QUIET = [0]
+
+
 def die(msg, code=2):
-    print("CHECK-ERROR: " + msg)
-    sys.exit(code)
+    if not _QUIET[0]:
+        print("CHECK-ERROR: " + msg)
+        if os.environ.get("VCHECK_TRACE"):
+            import traceback
+            traceback.print_stack()
+    raise CheckError(msg, code)
 
 
 def run(cmd, timeout, inp=None, cwd=None):
@@ -237,7 +252,11 @@ def run_model(lines, timeout=1800):
     res = _run_sharded(DRIVER, lines, timeout)
     for l, r in zip(lines, res):
         if r is None or r.startswith("(9") or r == "(8)":
-            die("the extracted model died on case: %s" % l[:300])
+            try:
+                open(os.path.join(ROOT, ".cache", "model_died_case.txt"), "w").write(l + "\n")
+            except Exception:
+                pass
+            die("the extracted model died on case (full text in .cache/model_died_case.txt): %s" % l[:300])
     return res
 
 
@@ -268,7 +287,14 @@ def shrink(case, still_fails, budget=400):
             tries += 1
             if tries > budget:
                 break
-            if still_fails(sx_str(cand)):
+            _QUIET[0] += 1
+            try:
+                ok = still_fails(sx_str(cand))
+            except CheckError:
+                ok = False          # the candidate cannot be evaluated (e.g. the model needs too long on it): not taken
+            finally:
+                _QUIET[0] -= 1
+            if ok:
                 cur = cand
                 progress = True
                 break
@@ -491,8 +517,15 @@ def finish(ctx, proof):
     pend = getattr(ctx, "pending_nofail", [])
     if pend and not [v for v in ctx.violations if not v[2]]:
         if hasattr(ctx.mod, "streams") and ctx.tier == "quick":
-            for st in ctx.mod.streams(ctx.seed + 7919, "search"):
-                evaluate_stream(ctx, st)
+            _QUIET[0] += 1
+            try:
+                for st in ctx.mod.streams(ctx.seed + 7919, "search"):
+                    try:
+                        evaluate_stream(ctx, st)
+                    except CheckError as e:       # the widened search is best effort: the broken correspondence is reported anyway
+                        ctx.stats.setdefault("search-aborted", {"cases": 0, "note": ""})["note"] += "stream %s: %s; " % (st.name, e.msg[:160])
+            finally:
+                _QUIET[0] -= 1
         if not [v for v in ctx.violations if not v[2]]:
             ctx.violation("correspondence broken; no failing input found", pend[0], nofail=True)
     wall = time.time() - ctx.t0
